@@ -91,6 +91,11 @@ Compare(S, res, in, ob, hist2) ==
                       IF X # {} THEN {<<"C14", <<"staking payout differs", h, X>>>>} ELSE {})
                 \cup (LET X == (DA \cap special) \ (batchA \cup winnersA) IN
                       IF X # {} THEN {<<"C15", <<"scheduled issuance differs", h, X>>>>} ELSE {})
+                \* C16: in the bank era, an address that takes part in this block only as the author of PEG requests paid from the bank
+                \* must end with exactly its share of the bank and its refund
+                \cup (LET pegA == {res.info.pegOut[i].a : i \in 1..Len(res.info.pegOut)}
+                          X == (DA \cap pegA) \ (winnersA \cup special \cup res.info.stakers \cup burners) IN
+                      IF X # {} THEN {<<"C16", <<"PEG paid from the bank / refund to a requester differs from its share", h, X>>>>} ELSE {})
                 \cup (LET X == (DA \cap batchA) \ (winnersA \cup special \cup res.info.stakers \cup burners) IN
                       IF X # {} THEN {<<"C03", <<"batch effects are not all-or-nothing / exact", h, X>>>>} ELSE {})
       \* C06: an address whose balance of some asset grew by exactly 2, 3 or 4 times the amount the block's events credit to it
